@@ -91,6 +91,15 @@ VERSRE: Final[Pattern[str]] = re.compile(r"HTTP/(\d)\.(\d)", re.ASCII)
 # No form of request-target admits a control character.
 _TARGET_FORBIDDEN_CTL_RE: Final[Pattern[str]] = re.compile(r"[\x00-\x1f\x7f]")
 DIGITS: Final[Pattern[str]] = re.compile(r"\d+", re.ASCII)
+# https://www.rfc-editor.org/rfc/rfc9110#section-7.2
+#     Host = uri-host [ ":" port ]
+# uri-host is a bracketed IP-literal or a non-empty reg-name (unreserved,
+# sub-delims, pct-encoded): no userinfo, path, query, fragment or blank.
+_HOST_RE: Final[Pattern[str]] = re.compile(
+    r"(?:\[[0-9A-Za-z\-._~%!$&'()*+,;=:]+\]"
+    r"|(?:[0-9A-Za-z\-._~!$&'()*+,;=]|%[0-9A-Fa-f]{2})+)(?::\d*)?",
+    re.ASCII,
+)
 HEXDIGITS: Final[Pattern[bytes]] = re.compile(rb"[0-9a-fA-F]+")
 # https://www.rfc-editor.org/rfc/rfc9112#section-7.1.1
 _CHUNK_EXT_FORBIDDEN_CTL_RE: Final[Pattern[bytes]] = re.compile(
@@ -799,6 +808,8 @@ class HttpRequestParser(HttpParser[RawRequestMessage]):
             # https://www.rfc-editor.org/rfc/rfc9112#section-3.2-6
             # An invalid Host value is a client error; without this check it
             # only surfaces as a ValueError when ``request.url`` is built.
+            if not _HOST_RE.fullmatch(host):
+                raise BadHttpMessage("Invalid 'Host' header in request.")
             try:
                 URL.build(authority=host)
             except ValueError as exc:
